@@ -87,8 +87,9 @@ theorem HooksExact.toRel (H : HooksExact P) (F : HooksNoFn P) : HooksRel exactFa
   last := fun e s hp => ⟨H.last e s, F.last e s hp⟩
   block := fun e s hp => ⟨H.block e s, F.block e s hp⟩
   afterBlock := fun e s hp => ⟨H.afterBlock e s, F.afterBlock e s hp⟩
-  scopeB := fun b c s hp => ⟨H.scopeB b c s, F.scopeB b c s hp⟩
-  scopeC := fun b c s hp => ⟨H.scopeC b c s, F.scopeC b c s hp⟩
+  scopeB := fun b s hp => ⟨H.scopeB b none s, F.scopeB b none s hp⟩
+  scopeR := fun b c s =>
+    ⟨fun hp => ⟨H.scopeB b (some c) s, F.scopeB b (some c) s hp⟩, fun hp => ⟨H.scopeC b c s, F.scopeC b c s hp⟩⟩
   insert := H.insert
   insertLocalName := H.insertLocalName
   insertLocalVal := fun n v s hp => ⟨H.insertLocalVal n v s, F.insertLocalVal n v s hp⟩
@@ -181,8 +182,8 @@ theorem HooksLe.toClosureRel {md : Bool} (H : HooksLe md P) : HooksRel (closureF
   last := fun e s => .stepL (H.last e s) (R.reflL _)
   block := fun e s => .stepB (H.block e s) (R.reflB _)
   afterBlock := fun e s => .stepB (H.afterBlock e s) (R.reflB _)
-  scopeB := fun b c s => .stepB (H.scopeB b c s) (R.reflB _)
-  scopeC := fun b c s => .stepE (H.scopeC b c s) (R.reflE _)
+  scopeB := fun b s => .stepB (H.scopeB b none s) (R.reflB _)
+  scopeR := fun b c s => ⟨.stepB (H.scopeB b (some c) s) (R.reflB _), .stepE (H.scopeC b c s) (R.reflE _)⟩
   insert := H.insert
   insertLocalName := H.insertLocalName
   insertLocalVal := fun n v s => .stepE (H.insertLocalVal n v s) (R.reflE _)
